@@ -52,6 +52,9 @@ def exchangeEnd : List Step → List Ev
     | .raise e => [errEv e]
     | .nothing => [errEv noDataExn]
 
+/-- the steps the `k`-th, `k+1`-th, … inputs of an exchange session play -/
+def playedFrom (p : Prog) (k n : Nat) : List Step := (List.range' k n).map p.stepAt
+
 def AllEmit (steps : List Step) : Prop := ∀ s ∈ steps, ∃ b, s.act = .emit b
 
 /-- same field set (order and types apart) -/
